@@ -248,9 +248,15 @@ class LinearFilter(LinearFilterProperties):
         gen_func += ["  {d_vars} = zero".format(d_vars=" = ".join(
                       ["d{}".format(el) for el in xrange(1, lb)]
                     ))]
-      gen_func += ["  for d0 in seq:",
-                   "    m0 = {expr}".format(expr=expr),
-                   "    yield m0"]
+      gen_func += ["  for d0 in seq:"]
+      if num_iterables or den_iterables: # Ends with the shortest coefficient
+        gen_func += ["    try:",
+                     "      m0 = {expr}".format(expr=expr),
+                     "    except StopIteration:",
+                     "      return"]
+      else:
+        gen_func += ["    m0 = {expr}".format(expr=expr)]
+      gen_func += ["    yield m0"]
       gen_func += ["    m{idx} = m{idxold}".format(idx=idx, idxold=idx - 1)
                    for idx in xrange(lm, 0, -1)]
       gen_func += ["    d{idx} = d{idxold}".format(idx=idx, idxold=idx - 1)
